@@ -35,8 +35,18 @@ def run_one(pid: str, tier: str, seed: int) -> int:
     try:
         program = Program()
         mod.check(program, run)
-        if tier == "thorough" and hasattr(mod, "thorough"):
-            mod.thorough(program, run, seed)
+        st_err = None
+        if tier == "thorough":
+            from sa.selftest import run_selftest
+            try:
+                run_selftest(pid, run, seed)
+            except AnalysisError as e:
+                st_err = e
+        rc = finish(run, seed)
+        if rc == 0 and st_err is not None:
+            print(f"ANALYSIS-ERROR property={pid} {st_err}")
+            return 2
+        return rc
     except AnalysisError as e:
         print(f"ANALYSIS-ERROR property={pid} {e}")
         return 2
@@ -44,7 +54,6 @@ def run_one(pid: str, tier: str, seed: int) -> int:
         print(f"ANALYSIS-ERROR property={pid} internal error")
         traceback.print_exc()
         return 2
-    return finish(run, seed)
 
 
 def replay(path: str) -> int:
